@@ -68,6 +68,8 @@ class NtTriplesYielder(BaseTriplesYielder):
     def _look_for_last_index_of_uri_token(self, target_str, first_index):
         target_substring = target_str[first_index:]
         index_sub = target_substring.find(">")
+        if index_sub == -1:  # malformed: no closing corner. The rest of the line is a single (wrong) token
+            return len(target_str) - 1
         return index_sub + (len(target_str) - len(target_substring))
 
     def _look_for_last_index_of_bnode_token(self, target_str, first_index):
@@ -98,6 +100,8 @@ class NtTriplesYielder(BaseTriplesYielder):
             success = False
             index_of_quotes = 1
             while not success:
+                if '"' not in target_substring[index_of_quotes + 1:]:  # malformed: no closing quotes
+                    return len(target_str) - 1
                 index_of_second_quotes = target_substring[index_of_quotes + 1:].find('"') + index_of_quotes + 1
                 if target_substring[index_of_second_quotes - 1] != "\\":
                     success = True
